@@ -16,20 +16,25 @@ def fn(d):
 ALL_FIXES = frozenset({'stop_notify_enqueuers', 'stopped_flag', 'batch_recheck_done'})
 
 
-def make(prods, cons, *, cap=1, stoppers=None, declared=None, timeout=False, ignore_error=False, fixes=ALL_FIXES):
+def make(prods, cons, *, cap=1, stoppers=None, declared=None, timeout=False, ignore_error=False, fixes=ALL_FIXES,
+         shared=None):
+  """shared: None or (n_items, fail_at): producers are pool workers over ONE shared input.
+  cons may use ('diter', num_steps): DequeueIterator inside MultiplexIterator."""
   """prods: {name: (n_items, fail_at)}; cons: {name: ('get',) | ('batch', K, block)}; stoppers: {name: with_exc}."""
   stoppers = stoppers or {}
   consts = dict(
       Prods=set(prods), Cons=set(cons), Stoppers=set(stoppers), Cap=cap,
       DeclaredMax=len(prods) if declared is None else declared, Timeout=timeout, IgnoreError=ignore_error,
-      Fixes=set(fixes),
+      Fixes=set(fixes), Shared=bool(shared), SrcN=(shared[0] if shared else 0), SrcFail=(shared[1] if shared else 0),
+      Steps='<- mc_Steps',
       N='<- mc_N', FailAt='<- mc_FailAt', Mode='<- mc_Mode', K='<- mc_K', Block='<- mc_Block', StopExc='<- mc_StopExc')
   defs = dict(
       mc_N=fn({p: v[0] for p, v in prods.items()}),
       mc_FailAt=fn({p: v[1] for p, v in prods.items()}),
       mc_Mode=fn({c: v[0] for c, v in cons.items()}),
-      mc_K=fn({c: (v[1] if len(v) > 1 else 0) for c, v in cons.items()}),
-      mc_Block=fn({c: (bool(v[2]) if len(v) > 2 else False) for c, v in cons.items()}),
+      mc_K=fn({c: (v[1] if len(v) > 1 and v[0] == 'batch' else 0) for c, v in cons.items()}),
+      mc_Block=fn({c: (bool(v[2]) if len(v) > 2 and v[0] == 'batch' else False) for c, v in cons.items()}),
+      mc_Steps=('(' + ' @@ '.join(f'{tlc.tla(c)} :> {(v[1] if v[0] == "diter" else -1)}' for c, v in cons.items()) + ')') if cons else '<<>>',
       mc_StopExc=fn({s: bool(e) for s, e in stoppers.items()}))
   return consts, defs
 
